@@ -121,10 +121,10 @@ def predicates(res, gm, pk, strict_lines, prop):
     return None
 
 
-def run_prop(ctx, prop):
+def run_prop(ctx, prop, size_bias=None):
     res = C.Result(prop)
     seed = ctx["seed"]
-    rng = C.rng_for(seed, "wire")
+    rng = C.rng_for(seed, "wire", prop)
     n = C.Budget(ctx["tier"], 700, 30000).n
     if ctx["widened"]:
         n *= 3
@@ -139,7 +139,7 @@ def run_prop(ctx, prop):
             m = gm_.message(size_class=rng.choice(["tiny", "small"]))
             kind = "malformed"
         else:
-            m = g.message()
+            m = g.message(size_class=rng.choice(size_bias) if size_bias else None)
             kind = "valid"
             if i % 4 == 0:
                 m = boundary_seek(m, rng)
